@@ -102,6 +102,12 @@ func main() {
 		fmt.Printf("unknown property %q\n", *prop)
 		os.Exit(2)
 	}
+	// widgets/term does not type-check for GOOS=windows upstream (syscall.SysProcAttr.Setsid); properties
+	// anchored in it are not analysable in that configuration and are skipped there, not failed.
+	if *goos == "windows" && map[string]bool{"C05": true, "C06": true, "C12": true, "C13": true}[spec.ID] {
+		fmt.Printf("SUMMARY property=%s tier=%s skipped: package widgets/term does not build for GOOS=windows upstream\n", spec.ID, *tier)
+		return
+	}
 	abs, _ := filepath.Abs(*repo)
 	start := time.Now()
 	c := &Ctx{Prop: spec.ID, Tier: *tier, counts: map[string]int{}, minima: map[string]int{}, verifDir: *verif}
